@@ -234,6 +234,10 @@ enum Act {
         max_new: u64,
         #[serde(default)]
         fail: bool,
+        /// the job task's replay of the thread fails (fail point `cont.job.replay`): it returns before its closure -
+        /// a job_spawned frame and nothing else (no checkpoint, no job_ended)
+        #[serde(default)]
+        early_err: bool,
     },
     /// S6: POST /sessions, then POST /sessions/{id}/input TWICE (router only, no provider); `wait` = the
     /// second input is sent after the first run has finished
@@ -309,8 +313,11 @@ impl Fault {
 /// installs the fail hook for one case, removes it when dropped
 struct FaultGuard;
 impl FaultGuard {
-    fn install(faults: &[Fault]) -> FaultGuard {
-        let names: BTreeSet<&'static str> = faults.iter().map(|f| f.point()).collect();
+    fn install(faults: &[Fault], job_early_err: bool) -> FaultGuard {
+        let mut names: BTreeSet<&'static str> = faults.iter().map(|f| f.point()).collect();
+        if job_early_err {
+            names.insert("cont.job.replay");
+        }
         if !names.is_empty() {
             rip_kernel::verif::set_fail_hook(Some(Arc::new(move |n: &'static str| names.contains(n))));
         }
@@ -610,6 +617,8 @@ struct Ids {
     race: Vec<(String, u32)>,
     /// PostDrop: the request future was still pending after its first poll and was dropped
     dropped: bool,
+    /// Job: value of JOB_RETURNS before the job was spawned
+    job_returns_before: u64,
 }
 
 struct IdMap(BTreeMap<String, u64>);
@@ -858,6 +867,8 @@ fn oracle(log: &[Line], faults: &[Fault]) -> Vec<(String, String)> {
 
 // ------------------------------------------------------------------ execution
 static SNAPS: AtomicU64 = AtomicU64::new(0);
+/// job tasks that have returned (hook point `job.task.returned`)
+static JOB_RETURNS: AtomicU64 = AtomicU64::new(0);
 
 fn req(method: &str, uri: &str, body: Option<Value>) -> axum::http::Request<axum::body::Body> {
     let b = axum::http::Request::builder().method(method).uri(uri);
@@ -1088,6 +1099,8 @@ fn act_done(a: &Act, id: &Ids, log: &[Line], faults: &[Fault]) -> bool {
             None => true,
         },
         Act::Input { .. } | Act::Input2 { .. } | Act::InputRace { .. } => true, // counted through the snapshot hook
+        // a job whose replay fails writes no closing frame: its task having returned is all there is to wait for
+        Act::Job { early_err: true, .. } => id.job.is_none() || JOB_RETURNS.load(Ordering::SeqCst) > id.job_returns_before,
         Act::Job { .. } => match &id.job {
             Some(j) => log.iter().any(|l| l.ty == "continuity_job_ended" && l.s("job_id") == *j),
             None => true,
@@ -1175,7 +1188,7 @@ async fn exec_case(c: &Case, root: &Path) -> Result<Exec, String> {
         }
     }
     let snaps_before = (SNAPS.load(Ordering::SeqCst), panics_seen());
-    let _faults = FaultGuard::install(&c.faults);
+    let _faults = FaultGuard::install(&c.faults, c.acts.iter().any(|a| matches!(a, Act::Job { early_err: true, .. })));
     let mut ids: Vec<Ids> = vec![];
     let mut runs_started = 0u64;
     let mut hang = None;
@@ -1354,7 +1367,8 @@ async fn exec_case(c: &Case, root: &Path) -> Result<Exec, String> {
                         None => id.dropped = true,
                     }
                 }
-                Act::Job { stride, max_new, fail } => {
+                Act::Job { stride, max_new, fail, .. } => {
+                    id.job_returns_before = JOB_RETURNS.load(Ordering::SeqCst);
                     if *fail {
                         let art = ws.join(".rip").join("artifacts");
                         let _ = std::fs::create_dir_all(ws.join(".rip"));
@@ -1568,7 +1582,8 @@ fn case_term(c: &Case, ex: &Exec, cal: &Calib) -> Option<String> {
                     return None;
                 }
                 let fail = matches!(a, Act::Job { fail: true, .. });
-                let t = if fail { format!("AJob {} (JFail 0)", 300 + i) } else { format!("AJob {} (JDone {})", 300 + i, id.planned) };
+                let early = matches!(a, Act::Job { early_err: true, .. });
+                let t = if early { format!("AJob {} JEarlyErr", 300 + i) } else if fail { format!("AJob {} (JFail 0)", 300 + i) } else { format!("AJob {} (JDone {})", 300 + i, id.planned) };
                 // checkpoints written after this job's spawn frame are the job's (one job per case)
                 let spawn_pos = ex.log.iter().find(|l| l.ty == "continuity_job_spawned" && l.s("job_id") == *j).map(|l| l.pos).unwrap_or(usize::MAX);
                 let o = ex
@@ -1798,7 +1813,7 @@ fn gen_case(r: &mut Rng, i: usize, caps: &[u32]) -> Case {
     if i % 25 == 7 {
         // a summarizer job that fails: posts through the kernel stub (no tool writes artifacts), then the job
         let mut acts: Vec<Act> = (0..r.range(1, 3)).map(|_| Act::Post { input: InputSpec::Prompt, provider: None }).collect();
-        acts.push(Act::Job { stride: 1, max_new: r.range(1, 3), fail: true });
+        acts.push(Act::Job { stride: 1, max_new: r.range(1, 3), fail: true, early_err: false });
         return Case { faults: vec![], engine: false, parallel: false, acts, break_summaries: false };
     }
     if i % 25 == 19 {
@@ -1855,7 +1870,7 @@ fn gen_case(r: &mut Rng, i: usize, caps: &[u32]) -> Case {
         }
     }
     if !engine && r.chance(1, 5) {
-        acts.push(Act::Job { stride: r.range(1, 2), max_new: r.range(1, 3), fail: false });
+        acts.push(Act::Job { stride: r.range(1, 2), max_new: r.range(1, 3), fail: false, early_err: r.chance(1, 4) });
     }
     // (the preamble post would consume the app-level default provider's first script)
     let break_summaries = !engine && !default_used && r.chance(1, 7);
@@ -1891,11 +1906,13 @@ fn corpus() -> Vec<Case> {
         Case { faults: vec![], break_summaries: false, engine: true, parallel: false, acts: vec![Act::Post { input: InputSpec::Prompt, provider: Some(p(vec![text_req(vec![Sse::Created { id: true }, Sse::Call(Tool::Ls), Sse::Call(Tool::BashEcho)]), text_req(vec![Sse::Delta])], false, Choice::OnlyLs)) }] },
         Case { faults: vec![], break_summaries: false, engine: true, parallel: false, acts: vec![Act::Post { input: InputSpec::Prompt, provider: Some(p(vec![text_req(vec![Sse::Delta])], false, Choice::Invalid)) }] },
         // parallel runs on one thread + a job
-        Case { faults: vec![], break_summaries: false, engine: false, parallel: true, acts: vec![post(vec![text_req(vec![Sse::Created { id: true }, Sse::Call(Tool::BashEcho)]), text_req(vec![Sse::Delta])]), post(vec![text_req(vec![Sse::Delta])]), Act::Post { input: InputSpec::Prompt, provider: None }, Act::Job { stride: 1, max_new: 2, fail: false }] },
+        Case { faults: vec![], break_summaries: false, engine: false, parallel: true, acts: vec![post(vec![text_req(vec![Sse::Created { id: true }, Sse::Call(Tool::BashEcho)]), text_req(vec![Sse::Delta])]), post(vec![text_req(vec![Sse::Delta])]), Act::Post { input: InputSpec::Prompt, provider: None }, Act::Job { stride: 1, max_new: 2, fail: false, early_err: false }] },
         // context compilation fails (summary artifact gone): the run ends with context_compile_failed, run_ended follows
         Case { faults: vec![], break_summaries: true, engine: false, parallel: false, acts: vec![post(vec![text_req(vec![Sse::Delta])]), Act::Post { input: InputSpec::Prompt, provider: None }, Act::Post { input: InputSpec::ToolEnv { tool: Tool::WriteOk, tmo: 0 }, provider: None }] },
         // a job whose summarizer fails: job_ended(failed), once
-        Case { faults: vec![], break_summaries: false, engine: false, parallel: false, acts: vec![Act::Post { input: InputSpec::Prompt, provider: None }, Act::Job { stride: 1, max_new: 2, fail: true }] },
+        Case { faults: vec![], break_summaries: false, engine: false, parallel: false, acts: vec![Act::Post { input: InputSpec::Prompt, provider: None }, Act::Job { stride: 1, max_new: 2, fail: true, early_err: false }] },
+        // a job whose task cannot replay the thread: job_spawned, then nothing (ended zero times - at most once holds)
+        Case { faults: vec![], break_summaries: false, engine: false, parallel: false, acts: vec![Act::Post { input: InputSpec::Prompt, provider: None }, Act::Post { input: InputSpec::Prompt, provider: None }, Act::Job { stride: 1, max_new: 2, fail: false, early_err: true }] },
         // S6: two inputs on one session
         Case { faults: vec![], break_summaries: false, engine: false, parallel: false, acts: vec![Act::Input2 { first: InputSpec::Prompt, second: InputSpec::Prompt, wait: true }] },
         Case { faults: vec![], break_summaries: false, engine: false, parallel: false, acts: vec![Act::Input2 { first: InputSpec::ToolEnv { tool: Tool::BashEcho, tmo: 0 }, second: InputSpec::Prompt, wait: false }, Act::Post { input: InputSpec::Prompt, provider: None }] },
@@ -1998,7 +2015,7 @@ fn label(c: &Case) -> Vec<String> {
                     v.push("provider=none".into());
                 }
             }
-            Act::Job { fail, .. } => v.push(if *fail { "job-fails".into() } else { "job".into() }),
+            Act::Job { fail, early_err, .. } => v.push(if *early_err { "job-early-error(replay fails)".into() } else if *fail { "job-fails".into() } else { "job".into() }),
             Act::Input2 { wait, .. } => v.push(format!("double-input-wait={wait}")),
             Act::InputRace { n, stepped, .. } => v.push(format!("concurrent-inputs={n} {}", if *stepped { "stepped" } else { "raced" })),
             Act::PostDrop { hold } => v.push(format!("post-client-hangs-up session-map-lock-{}", if *hold { "contended" } else { "free" })),
@@ -2025,6 +2042,8 @@ fn main() {
             race_point();
         } else if name == "server.sessions.locked" {
             hold_point();
+        } else if name == "job.task.returned" {
+            JOB_RETURNS.fetch_add(1, Ordering::SeqCst);
         }
     })));
     // panics of implementation tasks: tokio swallows them, the run just never ends - record them
